@@ -6,5 +6,5 @@ CONSTANTS
 INIT Init
 NEXT Next
 VIEW View
-INVARIANTS TypeOK Cases Sound Complete
+INVARIANTS TypeOK Cases Sound SoundNd Complete
 CHECK_DEADLOCK FALSE
